@@ -108,4 +108,132 @@ theorem selectRows_comp (t : Tbl) (n : Nat) (hfull : ∀ p ∈ t.data, p.2.lengt
   congr 1
   exact filterMap_comp p.2 ps1 ps2 (fun j hj => by rw [hfull p hp]; exact h1 j hj)
 
+
+/-! ### the `'regex::count'` path: that occurrence of every matching name -/
+
+theorem insertSorted_mem (x y : Int) : ∀ l : List Int, y ∈ insertSorted x l ↔ y = x ∨ y ∈ l
+  | [] => by simp [insertSorted]
+  | z :: r => by
+    simp only [insertSorted]
+    split
+    · simp
+    · simp only [List.mem_cons, insertSorted_mem x y r]
+      constructor
+      · rintro (h | h | h)
+        · exact Or.inr (Or.inl h)
+        · exact Or.inl h
+        · exact Or.inr (Or.inr h)
+      · rintro (h | h | h)
+        · exact Or.inr (Or.inl h)
+        · exact Or.inl h
+        · exact Or.inr (Or.inr h)
+
+theorem insertSorted_sorted (x : Int) : ∀ l : List Int, l.Pairwise (· ≤ ·) → (insertSorted x l).Pairwise (· ≤ ·)
+  | [], _ => by simp [insertSorted]
+  | z :: r, h => by
+    have hp := List.pairwise_cons.mp h
+    simp only [insertSorted]
+    split
+    · next hxz =>
+      refine List.pairwise_cons.mpr ⟨?_, h⟩
+      intro a ha
+      rcases List.mem_cons.mp ha with rfl | ha
+      · exact hxz
+      · exact Int.le_trans hxz (hp.1 a ha)
+    · next hxz =>
+      refine List.pairwise_cons.mpr ⟨?_, insertSorted_sorted x r hp.2⟩
+      intro a ha
+      rcases (insertSorted_mem x a r).mp ha with rfl | ha
+      · omega
+      · exact hp.1 a ha
+
+theorem foldl_insertSorted (l : List Int) : ∀ acc : List Int, acc.Pairwise (· ≤ ·) →
+    (l.foldl (fun acc x => insertSorted x acc) acc).Pairwise (· ≤ ·) ∧
+    ∀ y, y ∈ l.foldl (fun acc x => insertSorted x acc) acc ↔ y ∈ l ∨ y ∈ acc := by
+  induction l with
+  | nil => intro acc h; exact ⟨h, by simp⟩
+  | cons x l ih =>
+    intro acc h
+    simp only [List.foldl_cons]
+    obtain ⟨h1, h2⟩ := ih (insertSorted x acc) (insertSorted_sorted x acc h)
+    refine ⟨h1, fun y => ?_⟩
+    rw [h2 y, insertSorted_mem]
+    simp only [List.mem_cons]
+    constructor
+    · rintro (h | h | h)
+      · exact Or.inl (Or.inr h)
+      · exact Or.inl (Or.inl h)
+      · exact Or.inr h
+    · rintro ((h | h) | h)
+      · exact Or.inr (Or.inl h)
+      · exact Or.inl h
+      · exact Or.inr (Or.inr h)
+
+theorem sortInts_spec (l : List Int) : (sortInts l).Pairwise (· ≤ ·) ∧ ∀ y, y ∈ sortInts l ↔ y ∈ l := by
+  obtain ⟨h1, h2⟩ := foldl_insertSorted l [] List.Pairwise.nil
+  exact ⟨h1, fun y => by rw [sortInts, h2 y]; simp⟩
+
+theorem firstOcc_fold (keep : String → Bool) (l : List String) : ∀ acc : List String,
+    ∀ y, y ∈ l.foldl (fun acc x => if x ∈ acc then acc else acc ++ [x]) acc ↔ y ∈ l ∨ y ∈ acc := by
+  induction l with
+  | nil => intro acc y; simp
+  | cons x l ih =>
+    intro acc y
+    simp only [List.foldl_cons]
+    rw [ih]
+    by_cases hx : x ∈ acc
+    · simp only [hx, if_true, List.mem_cons]
+      constructor
+      · rintro (h | h)
+        · exact Or.inl (Or.inr h)
+        · exact Or.inr h
+      · rintro ((rfl | h) | h)
+        · exact Or.inr hx
+        · exact Or.inl h
+        · exact Or.inr h
+    · simp only [hx, if_false, List.mem_append, List.mem_singleton, List.mem_cons, List.not_mem_nil, or_false]
+      constructor
+      · rintro (h | h | h)
+        · exact Or.inl (Or.inr h)
+        · exact Or.inr h
+        · exact Or.inl (Or.inl h)
+      · rintro ((h | h) | h)
+        · exact Or.inr (Or.inr h)
+        · exact Or.inl h
+        · exact Or.inr (Or.inl h)
+
+/-- the distinct matching names -/
+theorem mem_firstOccNames (col : List String) (keep : String → Bool) (y : String) :
+    y ∈ firstOccNames col keep ↔ y ∈ col ∧ keep y = true := by
+  unfold firstOccNames
+  rw [firstOcc_fold keep]
+  simp [List.mem_filter]
+
+/-- the loop over the matching names collects, for each, the position of its `c`-th occurrence (if any) -/
+theorem regexp_loop_spec (c : Int) : ∀ (names : List String) (t : Tbl) (acc : List Int), Coherent t →
+    ∃ t', (getRegexpIndices.loop c t names acc) =
+      (t', .ok (acc ++ names.filterMap (fun nn => scanLookup t.indexCol nn c 0))) ∧ Keeps t t'
+  | [], t, acc, h => ⟨t, by simp [getRegexpIndices.loop], Keeps.refl h⟩
+  | nn :: rest, t, acc, h => by
+    have hs := getRowCache_scan t h nn c 0
+    have hk := getRowCache_keeps t h nn (some c) 0
+    simp only [getRegexpIndices.loop]
+    generalize getRowCache t nn (some c) 0 = r at hs hk
+    obtain ⟨t1, x⟩ := r
+    simp only at hs hk
+    subst hs
+    cases hsc : scanLookup t.indexCol nn c 0 with
+    | none =>
+      simp only
+      obtain ⟨t', he, hk'⟩ := regexp_loop_spec c rest t1 acc hk.1
+      refine ⟨t', ?_, hk.trans hk'⟩
+      rw [he, hk.indexCol]
+      simp [List.filterMap_cons, hsc]
+    | some i =>
+      simp only
+      obtain ⟨t', he, hk'⟩ := regexp_loop_spec c rest t1 (acc ++ [i]) hk.1
+      refine ⟨t', ?_, hk.trans hk'⟩
+      rw [he, hk.indexCol]
+      simp [List.filterMap_cons, hsc]
+
 end TableM
